@@ -82,6 +82,42 @@ def drive(ctx):
         n += 1
         loc = "en" if n % 3 else rnd.choice(locs)
         ctx.emit("format", {"items": [tok(t)], "locale": loc, "method": "format", "named": ""}, [v])
+    # ordinal tokens over the numbers on which the CLDR ordinal rules of en / fr / it / sv turn (documented: Do, Mo, Qo;
+    # implemented but undocumented: DDDo, wo, do - judged as part of the specification's extension)
+    import datetime as _dt
+
+    for doy in ctx.mine([1, 2, 3, 8, 11, 12, 13, 21, 22, 23, 31, 80, 100, 101, 102, 103, 108, 111, 112, 113, 121, 122, 180, 201, 211, 301, 365]):
+        d = _dt.date(2023, 1, 1) + _dt.timedelta(days=doy - 1)
+        v = mk_dt(UTCZ, [d.year, d.month, d.day, 7, 8, 9, 0], 0)
+        for loc in ("en", "fr", "it", "sv", "es", "nl"):
+            for t in ("Do", "Mo", "Qo", "DDDo", "wo", "do"):
+                ctx.emit("format", {"items": [tok(t)], "locale": loc, "method": "format", "named": ""}, [v])
+    # zone abbreviations: the same zone at the same UTC offset under two different abbreviations (Moscow +04:00 is MSD
+    # until 2010 and MSK in 2011-14; New York -04:00 is EDT, EWT, EPT), formatted one after the other in one process
+    from ..proj import i3_to_wall
+
+    for zn in ctx.mine(["Europe/Moscow", "America/New_York", "Asia/Pyongyang", "Europe/London", "America/Chicago", "Europe/Kiev",
+                        "Asia/Tokyo", "Europe/Lisbon", "America/Sao_Paulo", "Asia/Manila", "Africa/Windhoek", "Europe/Minsk",
+                        "Asia/Seoul", "America/Caracas", "Europe/Istanbul", "Asia/Dhaka"]):
+        z = ctx.zones.get(zn)
+        if not z:
+            continue
+        seen = {}
+        done = 0
+        for tr in z["trs"]:
+            key = tr["off"]
+            ab = tuple(tr["ab"])
+            if key in seen and seen[key][0] != ab and done < 3:
+                done += 1
+                for at in (seen[key][1], tr["at"], seen[key][1]):
+                    src = mk_dt(UTCZ, i3_to_wall([at[0], at[1], 0])[:6] + [0], 0)
+                    x = ctx.emit("in_tz", {"tz": {"n": zn, "fo": 0}}, [src], log=False)
+                    if not isinstance(x, Exception):
+                        ctx.emit("format", {"items": [tok("zz"), lit(" "), tok("Z"), lit(" "), tok("z")], "locale": "en", "method": "format",
+                                            "named": ""}, pre_objs=[x])
+            seen.setdefault(key, (ab, tr["at"]))
+            if seen[key][0] != ab:
+                seen[key] = (ab, tr["at"])
     # random token sequences with separators and escapes
     for k in range(400 if q else 2500):
         items = []
@@ -128,10 +164,18 @@ def drive(ctx):
         [tok("YYYY"), lit("-"), tok("MM"), lit("-"), tok("DD"), lit(" "), esc("at"), lit(" "), tok("HH"), lit(":"), tok("mm"), lit(":"), tok("ss"),
          lit("."), tok("SSSSSS"), lit(" "), tok("Z")],
     ]
+    COMPLETE.append([tok("YYYY"), lit("-"), tok("DDDD"), lit(" "), tok("HH"), lit(":"), tok("mm"), lit(":"), tok("ss"), lit("."), tok("SSSSSS"),
+                     lit(" "), tok("Z")])              # year + day of the year is a full date too
+    COMPLETE.append([tok("DDD"), lit("/"), tok("Y"), lit(" "), tok("H"), lit(":"), tok("m"), lit(":"), tok("s"), lit(" "), tok("SSSSSS"), lit(" "),
+                     tok("ZZ")])
     for v in ctx.mine(vals):
         if v["z"]["n"] == "naive":
             continue
-        for items in COMPLETE:
+        for (ci, items) in enumerate(COMPLETE):
+            if ci >= 4:                                # `now` in a leap and in a common year: the parsed year must decide
+                for ny in (2020, 2021):
+                    ctx.emit("from_format", {"items": items, "locale": "en", "kind": "roundtrip", "now": [ny, 6, 15, 12, 0, 0, 0]}, [v])
+                continue
             ctx.emit("from_format", {"items": items, "locale": "en", "kind": "roundtrip", "now": [2020, 6, 15, 12, 0, 0, 0]}, [v])
             ctx.emit("from_format", {"items": items, "locale": "en", "kind": "mismatch", "mutate": rnd.randrange(40),
                                      "now": [2020, 6, 15, 12, 0, 0, 0]}, [v])
